@@ -12,6 +12,10 @@ class RewriteFunctionArgAccessVisitor(Visitor.DefaultVisitor):
 
         function.AcceptVisitor(self, mapping)
 
+        # The argument accesses have been replaced by new instructions, the
+        # use lists still refer to the old ones
+        function.UpdateUses()
+
     def v_VariableAccessInstruction(self, vai, ctx):
         if vai.Scope == LinearIR.VariableAccessScope.FUNCTION_ARGUMENT:
             instruction = vai.WithVariable(ctx[vai.Variable])
